@@ -554,6 +554,14 @@ def run_variant(t, tier, neg=None, keep=False, sweep=None):
                             "harness exceeded (%s)" % (uw[0]["property"],
                                                        uw[0].get("description")))
         failed = [r for r in failed if r not in uw]
+        if uw:
+            kn, _ = load_known()
+            if all(known_match(kn, t["properties"], t["id"], r["property"],
+                               r.get("description")) for r in failed):
+                # nothing but listed known findings fails besides the bound:
+                # the run is incomplete, not a verdict
+                raise Undecided("unwinding assertion %s failed: loop bound of "
+                                "the harness exceeded" % uw[0]["property"])
         unknown = [r for r in nres if r["status"] not in ("SUCCESS", "FAILURE", "IGNORED")]
         known, _ = load_known()
         if failed and all(known_match(known, t["properties"], t["id"],
@@ -762,6 +770,10 @@ def check_property(pid, tier):
     n_ign = sum(1 for r in results for o in r["obligations"]
                 if o["status"] == "IGNORED")
     n_obl -= n_ign
+    # obligations that belong to a listed known finding are reported separately
+    # (coverage.known_findings), they are not part of what this run claims to
+    # have discharged
+    n_obl -= len(knowns)
     by_route = {}
     for t, r in zip(order, results):
         by_route.setdefault(t.get("route", "?"), []).append(t["id"])
